@@ -240,8 +240,10 @@ class Site:
                     pages[key]["imagerepository"] = "shared"
             order.append((key, pages[key], None, title))
 
+        # MediaWiki takes at most 50 values per multi-value parameter from an ordinary client
+        # and silently (with a warning nobody reads) ignores the rest
         if p.get("titles"):
-            for raw in p["titles"].split("|"):
+            for raw in p["titles"].split("|")[:MAX_VALUES]:
                 t = self.norm(raw)
                 final = t
                 if p.get("redirects"):
@@ -261,7 +263,7 @@ class Site:
                         add_missing(final)
         bad = {}
         if p.get("revids"):
-            for raw in p["revids"].split("|"):
+            for raw in p["revids"].split("|")[:MAX_VALUES]:
                 rid = int(raw)
                 rev = self.revs.get(rid)
                 if rev is None:
@@ -509,6 +511,9 @@ USERS = ["Alice", "Bob", "Carol", "Dave", "Eve", "Mallory", "Trent", "Peggy", "Ð
 BOTS = ["CleanupBot", "xqbot", "ArchiveBOT", "SineBot"]
 
 
+MAX_VALUES = 50
+
+
 def gen_spec(rng, size="small"):
     lang = rng.choice(["en", "en", "de"])
     file_ns, tmpl_ns = NS_NAMES[lang][6], NS_NAMES[lang][10]
@@ -569,8 +574,11 @@ def gen_spec(rng, size="small"):
         return " ".join(p for p in parts if p)
 
     n_a = rng.randint(1, 6 if size == "small" else 14)
-    # titles with characters that must be escaped in a query string
-    anames = [f"{rng.choice(['Art', 'Ãœber', 'Page', 'Art', 'Page', 'C++', 'Q&A', 'A=b', '50%'])} {i}" for i in range(n_a)]
+    if size == "huge":
+        n_a = rng.randint(MAX_VALUES + 6, MAX_VALUES + 20)  # a book with more articles than one request may name
+    # titles with characters that must be escaped in a query string; a colon that is no namespace prefix
+    anames = [f"{rng.choice(['Art', 'Ãœber', 'Page', 'Art', 'Page', 'C++', 'Q&A', 'A=b', '50%', 'Saga: Part', 'Art'])} {i}"
+              for i in range(n_a)]
     if rng.random() < 0.25:
         # a title that is a number (a year): not to be mistaken for a revision id (those stay below 7000)
         anames[rng.randrange(n_a)] = str(7000 + rng.randrange(3000))
@@ -612,11 +620,11 @@ def gen_spec(rng, size="small"):
     cands = list(anames) + redirs + special + (["Was redirect"] if "Was redirect" in pages else [])
     rng.shuffle(cands)
     chapter = None
-    for t in cands[: rng.randint(1, len(cands))]:
+    for t in cands[: (len(cands) if size == "huge" else rng.randint(1, len(cands)))]:
         if rng.random() < 0.2:
             chapter = f"Chapter {len(mb)}" if rng.random() < 0.7 else None
         rev = None
-        if t in pages and rng.random() < 0.4:
+        if t in pages and rng.random() < (0.4 if size != "huge" else 0.06):
             revs = pages[t]["revs"]
             rev = rng.choice(revs)[0]
             if rev != revs[-1][0]:
@@ -626,6 +634,10 @@ def gen_spec(rng, size="small"):
         mb.insert(rng.randrange(len(mb) + 1), {"title": "Missing page", "rev": None, "chapter": None})
     if rng.random() < 0.15:
         mb.append(dict(rng.choice(mb)))  # the same article twice
+    if rng.random() < 0.12:
+        # a revision id the wiki does not have (deleted revision, typo): a page that does not exist
+        mb.insert(rng.randrange(len(mb) + 1), {"title": rng.choice(anames + ["Ghost"]), "rev": 9990000 + rng.randrange(1000),
+                                               "chapter": None})
     if rng.random() < 0.2:
         # the same article both unpinned and at a pinned (often older) revision
         multi = [t for t in anames if len(pages[t]["revs"]) >= 2]
